@@ -67,7 +67,9 @@ class C02(Property):
     ]
     assumptions = ["stat.CpuUsage() may return any int64; the theorems quantify over both readings of every Allow",
                    "each atomic action of Allow/Pass/Fail (atomic add/load, spin-locked avgFlying access, RWMutex-protected window op) is one step",
-                   "shed_when_saturated excludes cpuThreshold = cpuMax = CPU reading (0/0 = NaN in overloadFactor; documented precondition threshold < cpuMax)"]
+                   "shed_when_saturated excludes cpuThreshold = cpuMax = CPU reading (0/0 = NaN in overloadFactor; documented precondition "
+                   "threshold < cpuMax); prop_ok does NOT exclude it: such histories fail and are reported as KNOWN-FINDING "
+                   "nan-factor-threshold-eq-cpumax iff they pass prop_ok_excl"]
 
     # ---- translators ---------------------------------------------------------
     def regen(self, ctx):
@@ -100,6 +102,12 @@ class C02(Property):
         for d in (COOL - 1, COOL, COOL + 1):
             ops = pre + [["allow", B + 5, 950, 950], ["allow", B + 5 + d, 0, 0], ["allow", B + 5 + d, 0, 0]]
             cs.append(self._case(5 * SEC, 50, 900, B, ops))
+        # known finding nan-factor-threshold-eq-cpumax, exhibited: threshold = cpuMax, capacity 1, flying 10,
+        # avgFlying ~ 8.9, CPU reading exactly 1000 -> overloaded and saturated, yet admitted (NaN factor);
+        # at 1001 the factor is -Inf -> clamped to 0.1 -> shed
+        ops = [["allow", B, 0, 0] for _ in range(20)] + [["pass", i, B + 5 * MS] for i in range(10)]
+        ops += [["allow", B + 150 * MS, 1000, 1000], ["allow", B + 150 * MS, 1001, 1001]]
+        cs.append(self._case(5 * SEC, 50, 1000, B, ops))
         # NaN corner: threshold = cpuMax = reading
         ops = pre + [["allow", B + 5, 1000, 1000], ["allow", B + 6, 1001, 1001], ["allow", B + 7, 1000, 999]]
         cs.append(self._case(5 * SEC, 50, 1000, B, ops, mode="split"))
@@ -369,6 +377,27 @@ class C02(Property):
                 o[1] = newidx[o[1]]
             out.append(o)
         return out
+
+    # ---- known finding --------------------------------------------------------
+    KNOWN_NAN = "nan-factor-threshold-eq-cpumax"
+
+    def known(self, case, obs):
+        """The known finding, and only it: cpuThreshold = cpuMax, some admitted Allow whose checker and factor
+        readings are exactly cpuMax, and the history satisfies every clause of the property once
+        shed_when_saturated carries its excluding hypothesis (Check.prop_ok_excl, evaluated in Coq) - i.e. the only
+        failing clause is shed_when_saturated at the NaN corner."""
+        if case.get("threshold") != 1000 or obs.get("nop"):
+            return None
+        if not any(o[0] == "allow" and o[2] >= 1000 and o[3] == 1000 and not b["shed"]
+                   for o, b in zip(case["ops"], obs["obs"])):
+            return None
+        key = vlib.canon_hash([{k: v for k, v in case.items() if k != "id"}, obs["obs"]])
+        cache = self.__dict__.setdefault("_known_cache", {})
+        if key not in cache:
+            out = vlib.coq_eval_term(self.id, self.check_module or "C02.Check",
+                                     "(prop_ok (%s), prop_ok_excl (%s))" % ((self.coq_case(case, obs),) * 2))
+            cache[key] = bool(re.search(r"=\s*\(false,\s*true\)", out))
+        return self.KNOWN_NAN if cache[key] else None
 
     def describe_failure(self, case, obs):
         return ("on the implementation: an Allow was shed although not hot / not above 10% of capacity, or was admitted although "
